@@ -41,53 +41,6 @@ RULE += (' ' +
          'tokens; overlapping operations (A suspended at every line, B '
          'complete in between) on shared and separate tokens, and a failing '
          'operation overlapped by a succeeding, storing one on the same '
-         'token (the token must hold what the successful one stored). ')
-RULE += (' ' +
-         'Added in later rounds: null-valued error bodies; independence of '
-         'tokens; overlapping operations (A suspended at every line, B '
-         'complete in between) on shared and separate tokens, and a failing '
-         'operation overlapped by a succeeding, storing one on the same '
-         'token (the token must hold what the successful one stored). Round '
-         '11: error bodies with raw non-ASCII text in Latin-1 and UTF-8 '
-         'under declared and undeclared charsets. ')
-RULE += (' ' +
-         'Added in later rounds: null-valued error bodies; independence of '
-         'tokens; overlapping operations (A suspended at every line, B '
-         'complete in between) on shared and separate tokens, and a failing '
-         'operation overlapped by a succeeding, storing one on the same '
-         'token (the token must hold what the successful one stored). Round '
-         '11: error bodies with raw non-ASCII text in Latin-1 and UTF-8 '
-         'under declared and undeclared charsets. Round 12: successful '
-         'replies that keep chosen fields constant (same profile id with a '
-         'new name, unchanged tokens). ')
-RULE += (' ' +
-         'Added in later rounds: null-valued error bodies; independence of '
-         'tokens; overlapping operations (A suspended at every line, B '
-         'complete in between) on shared and separate tokens, and a failing '
-         'operation overlapped by a succeeding, storing one on the same '
-         'token (the token must hold what the successful one stored). Round '
-         '11: error bodies with raw non-ASCII text in Latin-1 and UTF-8 '
-         'under declared and undeclared charsets. Round 12: successful '
-         'replies that keep chosen fields constant (same profile id with a '
-         'new name, unchanged tokens). Round 13: well-formed error objects '
-         'of 20 kB and 300 kB. ')
-RULE += (' ' +
-         'Added in later rounds: null-valued error bodies; independence of '
-         'tokens; overlapping operations (A suspended at every line, B '
-         'complete in between) on shared and separate tokens, and a failing '
-         'operation overlapped by a succeeding, storing one on the same '
-         'token (the token must hold what the successful one stored). Round '
-         '11: error bodies with raw non-ASCII text in Latin-1 and UTF-8 '
-         'under declared and undeclared charsets. Round 12: successful '
-         'replies that keep chosen fields constant (same profile id with a '
-         'new name, unchanged tokens). Round 13: well-formed error objects '
-         'of 20 kB and 300 kB. Round 14: error objects with JSON whitespace '
-         'before / after. ')
-RULE += (' ' +
-         'Added in later rounds: null-valued error bodies; independence of '
-         'tokens; overlapping operations (A suspended at every line, B '
-         'complete in between) on shared and separate tokens, and a failing '
-         'operation overlapped by a succeeding, storing one on the same '
          'token (the token must hold what the successful one stored). Round '
          '11: error bodies with raw non-ASCII text in Latin-1 and UTF-8 '
          'under declared and undeclared charsets. Round 12: successful '
